@@ -300,7 +300,7 @@ PROPS["C05"] = {
     "harnesses": _steps("p05", (1, 2, 3), covers_by={2: ("w5-create", "w5-remove"), 3: ("w5-rename",)}, q_by={2: {"pendingshrink": 1}}, t_by={1: {"inums": 1, "pendingshrink": 0, "namelens": 2}, 2: {"inums": 1, "namelens": 2}, 3: {"inums": 1, "pendingshrink": 0, "namelens": 2}}) + [
         H("nfs.VerifC05Shrink", covers=("end", "entry-freed", "entry-hole"), q=dict(STEPQ, inums=1, bblocks=2, sizeblocks=0), t=dict(STEPQ, inums=1, bblocks=2, sizeblocks=0, c05ext=1), lmax=3, budget_s=400, budget_s_t=1500),
         H("nfs.VerifC05Restart", covers=("end",), q=dict(STEPQ, inums=1), t=dict(STEPQ, inums=1), budget_s=200),
-        {"fn": "github.com/mit-pdos/go-journal/alloc.VerifAllocContract", "covers": ["end", "full", "allocated"], "q": {"allocbytes": 2, "realalloc": 1}, "t": {"allocbytes": 3, "realalloc": 1}, "budget_s": 300, "budget_s_t": 900},
+        {"fn": "github.com/mit-pdos/go-journal/alloc.VerifAllocContract", "covers": ["end", "full", "allocated"], "q": {"allocbytes": 2, "realalloc": 1}, "t": {"allocbytes": 2, "realalloc": 1}, "budget_s": 300, "budget_s_t": 900},
     ],
 }
 
